@@ -10,6 +10,7 @@ import (
 	"fmt"
 	"sort"
 	"strconv"
+	"strings"
 	"sync"
 	"time"
 
@@ -382,6 +383,20 @@ func (w *World) CheckTx(bz []byte) TxRes {
 	return TxRes{Code: r.Code, Codespace: r.Codespace, Data: r.Data, GasWanted: r.GasWanted, GasUsed: r.GasUsed, Log: r.Log, Events: r.Events}
 }
 
+// Simulate runs a transaction in simulation mode (what clients do to estimate gas); nothing of it may persist.
+func (w *World) Simulate(bz []byte) (ok bool, log string) {
+	defer func() {
+		if r := recover(); r != nil {
+			ok, log = false, "simulation panicked: "+fmt.Sprint(r)
+		}
+	}()
+	_, _, err := w.App.Simulate(bz)
+	if err != nil {
+		return false, err.Error()
+	}
+	return true, ""
+}
+
 // ReCheckTx is CheckTx in the mode the mempool uses after every commit for the transactions it still holds.
 func (w *World) ReCheckTx(bz []byte) TxRes {
 	r := w.App.CheckTx(abci.RequestCheckTx{Tx: bz, Type: abci.CheckTxType_Recheck})
@@ -480,7 +495,18 @@ func (w *World) Ctx() sdk.Context {
 }
 
 // Query goes through the real gRPC query router of the application (committed state).
-func (w *World) Query(path string, req proto.Message, resp proto.Message) error {
+func (w *World) Query(path string, req proto.Message, resp proto.Message) (err error) {
+	// a query handler that panics is an observation (the node's gRPC server would recover and answer
+	// with an internal error), not a reason to abort the check
+	defer func() {
+		if p := recover(); p != nil {
+			s := fmt.Sprint(p)
+			if strings.HasPrefix(s, "harness:") {
+				panic(p)
+			}
+			err = &QueryErr{Code: 111222, Log: "query handler panicked: " + s}
+		}
+	}()
 	bz, err := proto.Marshal(req)
 	if err != nil {
 		return err
